@@ -2251,6 +2251,38 @@ class unyt_array(np.ndarray):
             out.units = res_units
         return ret
 
+    def round(self, decimals=0, out=None):
+        """method
+
+        Return the array with each element rounded to the given number of decimals,
+        in the units of the array.
+
+        Refer to :func:`numpy.around` for full documentation.
+
+        See also
+        --------
+        numpy.around : equivalent function
+        """
+        # ndarray.round goes through __array_wrap__ and comes back bare
+        # (decimals=0) or relabelled dimensionless; np.round calls this method
+        return np.around(self, decimals=decimals, out=out)
+
+    def trace(self, offset=0, axis1=0, axis2=1, dtype=None, out=None):
+        """method
+
+        Return the sum along diagonals of the array, in the units of the array.
+
+        Refer to :func:`numpy.trace` for full documentation.
+
+        See also
+        --------
+        numpy.trace : equivalent function
+        """
+        # ndarray.trace returns a bare number
+        return np.trace(
+            self, offset=offset, axis1=axis1, axis2=axis2, dtype=dtype, out=out
+        )
+
     def take(self, indices, axis=None, out=None, mode="raise"):
         """method
 
